@@ -109,7 +109,7 @@ def _reachable_copy(exe, base):
         return _COPIES[key]
 
 
-def run(cut, tree, argv, stdin=b"", tty=None, uid=0, env=None, timeout=8, strace=None, sanitize=False, keep=False, exe=None, root_owned=()):
+def run(cut, tree, argv, stdin=b"", tty=None, uid=0, env=None, timeout=8, strace=None, sanitize=False, keep=False, exe=None, root_owned=(), nofile=None):
     """tree: Tree; argv: list of bytes (without argv[0]); tty: None (no controlling terminal) or list of answer byte strings.
     strace: None | {'trace': True} | {'inject': 'write:error=ENOSPC:when=3'}"""
     base = BOXROOT
@@ -153,6 +153,8 @@ def run(cut, tree, argv, stdin=b"", tty=None, uid=0, env=None, timeout=8, strace
         if strace.get("inject"):
             sc += ["-e", "inject=" + strace["inject"]]
         cmd = [c.encode() if isinstance(c, str) else c for c in sc] + cmd
+    if nofile:     # a limit on open files for the program (D107)
+        cmd = [b"sh", b"-c", b"ulimit -n %d; exec \"$@\"" % nofile, b"sh"] + cmd
     if uid != 0:
         cmd = [b"setpriv", b"--reuid=%d" % uid, b"--regid=%d" % uid, b"--clear-groups"] + cmd
     r = Result()
